@@ -81,7 +81,7 @@ def classify(res, teal, version, app):
         if hit:
             return ("txn-array-index-over-255", pat.sub(lambda mm: mm.group(0) if int(mm.group(3)) <= 255 else "%s%s 0" % (mm.group(1), mm.group(2)), teal), version)
     if kind == "imm-range" and m and m.group(1) in ("intc", "bytec") and int(m.group(2)) > 255:
-        blk = re.search(r"^%sblock (.*)$" % m.group(1)[:-1], teal, re.M)
+        blk = re.search(r"^%sblock (.*)$" % m.group(1), teal, re.M)
         if blk and len(blk.group(1).split(" //")[0].split()) > 256:
             pat = re.compile(r"^(intc|bytec) (\d+)( //.*)?$", re.M)
             return ("const-block-index-over-255", pat.sub(lambda mm: mm.group(0) if int(mm.group(2)) <= 255 else "%s 0" % mm.group(1), teal), version)
@@ -98,7 +98,7 @@ def classify(res, teal, version, app):
         return ("asset-creator-below-v5", re.sub(r"^asset_params_get AssetCreator$", "asset_params_get AssetManager", teal, flags=re.M), version)
     if kind == "field-unknown" and detail == "vrf_verify VrfChainlink":
         return ("vrf-chainlink-not-an-avm-field", re.sub(r"^vrf_verify VrfChainlink$", "vrf_verify VrfAlgorand", teal, flags=re.M), version)
-    if kind in ("itxn-field-not-settable", "itxn-field-version") and detail.startswith("itxn_field "):
+    if kind in ("itxn-field-not-settable", "itxn-field-version", "field-version") and detail.startswith("itxn_field "):
         f = detail.split()[1]
         return ("itxn-field-not-settable", re.sub(r"^itxn_field %s$" % re.escape(f), "itxn_field Fee", teal, flags=re.M), version)
     if kind == "back-branch" and version < 4:
@@ -112,7 +112,7 @@ FINDING_TEXT = {
     "app-only-field-in-signature-mode": "a field the AVM offers in Application mode only (global Round/LatestTimestamp/CurrentApplicationID/CreatorAddress/..., txn Logs/NumLogs/Created*ID/LastLog) compiles in Signature mode: PyTeal has no mode column for fields",
     "asset-creator-below-v5": "AssetParam.creator compiles below version 5 (asset_params_get AssetCreator exists from v5): the field carries no version",
     "vrf-chainlink-not-an-avm-field": "VrfVerify.chainlink emits vrf_verify VrfChainlink, which is not a field of the AVM (only VrfAlgorand)",
-    "itxn-field-not-settable": "InnerTxnBuilder.SetField accepts any TxnField of the program version: itxn_field is emitted for fields the AVM never lets an inner transaction set (FirstValid, TxID, NumAppArgs, ...) or only from a later version (Note, RekeyTo, application fields: v6)",
+    "itxn-field-not-settable": "InnerTxnBuilder.SetField accepts any TxnField of the program version: itxn_field is emitted for fields the AVM never lets an inner transaction set (FirstValid, TxID, NumAppArgs, ...) or only from a later version (Note, RekeyTo, application fields: v6), and the field's own minimum version is not checked either (itxn_field StateProofPK at v5)",
     "loop-below-v4": "While/For compile at versions 2 and 3 although backward branches exist only from version 4",
     "subroutine-name-line-feed": "a subroutine name containing a line feed is written verbatim into the `// name` line, so the rest of the name becomes TEAL source lines (labels, instructions, garbage)",
 }
@@ -195,6 +195,9 @@ class Session:
         ok = self.check_text(teal, version, app, case, extra_known)
         if ok:
             self.accepted += 1
+            if len(ck.samples) < 1 and len(teal) > 200:
+                ck.sample({"family": fam, "case": case.get("name", case.get("key")), "version": version, "mode": "app" if app else "sig",
+                           "teal_lines": len(teal.split("\n")), "legal_check": "ok", "first_lines": teal.split("\n")[:6]})
         return teal
 
 
@@ -207,7 +210,7 @@ def opts_for(pt, rng, version):
 # ---------------------------------------------------------------------------------------------
 # families
 # ---------------------------------------------------------------------------------------------
-def fam_corpus(ses, pt, rng, thorough):
+def fam_corpus(ses, pt, rng, thorough, shard=0, nshards=1):
     """progcorpus / gen_prog recipes through build.Builder (main-routine programs)."""
     def one(recipe, version, app, ss, fp, ac, tag):
         b = Builder(pt)
@@ -219,11 +222,13 @@ def fam_corpus(ses, pt, rng, thorough):
                                                           "scratch_slots": ss, "frame_pointers": fp, "assemble_constants": ac},
                               optimize=optimize_of(pt, ss, fp), assemble_constants=ac)
     smalls = small_recipes()
-    for r in smalls:
+    for k, r in enumerate(smalls):
+        if k % nshards != shard:
+            continue
         for v in (G.VERSIONS if thorough else [2, 3, 4, 6, 8, 10]):
             for app in (True, False):
                 one(r, v, app, None, None, False, "small")
-    n = 5000 if thorough else 600
+    n = (5000 if thorough else 600) // nshards
     for i in range(n):
         version, app, ss, fp = random_case_params(rng)
         g = Gen(rng, version, app, size=rng.choice([5, 10, 20, 40, 60]), allow_new_ops=0.03)
@@ -235,12 +240,14 @@ def fam_corpus(ses, pt, rng, thorough):
     ses.ck.coverage["corpus_small_shapes"] = len(smalls)
 
 
-def fam_sweep(ses, pt, rng, thorough):
+def fam_sweep(ses, pt, rng, thorough, shard=0, nshards=1):
     """catalogue + raw ops x versions x modes: accepted => legal."""
     cat = G.catalogue(pt)
     raw = G.raw_cases(pt)
     acc = {}
     for idx, (name, thunk, tags) in enumerate(cat):
+        if idx % nshards != shard:
+            continue
         for v in G.VERSIONS:
             for app in (True, False):
                 ss, fp = [(None, None), (True, None), (False, False), (None, True)][(idx + v) % 4]
@@ -252,18 +259,20 @@ def fam_sweep(ses, pt, rng, thorough):
                                           optimize=optimize_of(pt, ss, fp), assemble_constants=ac)
                 if t is not None:
                     acc.setdefault(name, []).append((v, app))
-    never = [n for n, _, tags in cat if n not in acc and "v11" not in tags]
+    never = [n for k, (n, _, tags) in enumerate(cat) if k % nshards == shard and n not in acc and "v11" not in tags]
     ses.ck.coverage["catalogue_entries"] = len(cat)
-    ses.ck.coverage["catalogue_never_accepted"] = never[:40]
+    ses.ck.coverage.setdefault("catalogue_never_accepted", []).extend(never[:40])
     for idx, (name, thunk) in enumerate(raw):
+        if idx % nshards != shard:
+            continue
         for v in G.VERSIONS:
             for app in (True, False):
                 ses.compile_and_check(thunk, v, app, {"family": "raw", "name": "raw:" + name, "key": idx})
     ses.ck.coverage["raw_ops"] = len(raw)
 
 
-def fam_subs(ses, pt, rng, thorough):
-    n = 6000 if thorough else 900
+def fam_subs(ses, pt, rng, thorough, shard=0, nshards=1):
+    n = (6000 if thorough else 900) // nshards
     hist = {}
     for i in range(n):
         seed = rng.randrange(1 << 40)
@@ -292,7 +301,7 @@ def newline_known(names):
     return f
 
 
-def fam_names(ses, pt, rng, thorough):
+def fam_names(ses, pt, rng, thorough, shard=0, nshards=1):
     n = 400 if thorough else 90
     for i in range(n):
         seed = rng.randrange(1 << 40)
@@ -312,8 +321,8 @@ def fam_names(ses, pt, rng, thorough):
         ses.compile_and_check(thunk, version, True, {"family": "names-newline", "key": seed}, extra_known=lambda r, t, v: newline_known(names)(r, t, v))
 
 
-def fam_router(ses, pt, rng, thorough):
-    n = 500 if thorough else 70
+def fam_router(ses, pt, rng, thorough, shard=0, nshards=1):
+    n = (500 if thorough else 70) // nshards
     for i in range(n):
         seed = rng.randrange(1 << 40)
         version = rng.choice([6, 6, 7, 8, 8, 9, 10])
@@ -337,16 +346,36 @@ def fam_router(ses, pt, rng, thorough):
                 ses.accepted += 1
 
 
-def fam_consts(ses, pt, rng, thorough):
-    sizes = [(1, 1), (4, 4), (5, 5), (17, 3), (255, 0), (256, 0), (0, 256), (257, 0), (0, 257), (300, 300)]
+def fam_consts(ses, pt, rng, thorough, shard=0, nshards=1):
+    sizes = [(1, 1), (4, 4), (5, 5), (17, 3), (255, 0), (256, 0), (0, 256), (257, 0), (0, 257), (260, 258)]
     if thorough:
-        sizes += [(254, 254), (256, 256), (258, 1), (400, 2), (2, 700)]
-    for ni, nb in sizes:
-        for version in ([3, 6, 10] if not thorough else [3, 4, 5, 6, 8, 10]):
-            for app in (True, False):
+        sizes += [(254, 254), (256, 256), (258, 1), (400, 2), (2, 700), (300, 300)]
+    for k, (ni, nb) in enumerate(sizes):
+        for version in ([3, 6, 10] if thorough or ni + nb < 100 else [[3, 6, 10][k % 3]]):
+            for app in ((True, False) if thorough or ni + nb < 100 else (k % 2 == 0,)):
                 ses.compile_and_check(lambda: G.gen_consts_program(pt, ni, nb), version, app,
                                       {"family": "consts", "name": "consts:%d:%d" % (ni, nb), "key": [ni, nb], "assemble_constants": True},
                                       assemble_constants=True)
+
+
+def run_job(arg):
+    """One family shard in a worker process: its own Check book-keeping and checker process."""
+    (fam, shard, nshards), tier, seed = arg
+    import random
+    import pyteal as pt
+    t0 = time.time()
+    ck = Check("C04", tier)
+    ck.rng = random.Random("%d:%s:%d:%d" % (seed, fam, shard, nshards))
+    model = Model("c04")
+    ses = Session(ck, model)
+    try:
+        globals()["fam_" + fam](ses, pt, ck.rng, tier == "thorough", shard, nshards)
+    finally:
+        model.close()
+    return {"wall": round(time.time() - t0, 1), "evaluations": ck.evaluations, "distinct": ck.distinct, "violations": ck.violations,
+            "broken": ck.broken, "known_seen": ck.known_seen, "stats": ses.stats, "kinds": ses.kinds, "ops_seen": ses.ops_seen,
+            "known_hits": ses.known_hits, "uncovered": ses.uncovered, "nviol": ses.violations, "accepted": ses.accepted,
+            "coverage": ck.coverage, "samples": ck.samples}
 
 
 def build_case(pt, case, version, app):
@@ -426,13 +455,47 @@ def main(argv):
         return ck.finish(level="proof", rule="extraction failed")
     unk = model.ask("(unknowns)")
     ck.coverage["langspec_unknown_rows"] = {"ops": [str(x) for x in unk[1][1:]], "itxn_field_settability": [str(x) for x in unk[2][1:]]}
-    ses = Session(ck, model)
-    rng = ck.rng
+    model.close()
+    # families run as parallel jobs (own interpreter state, own checker process each); results are merged here
+    jobs = [("sweep", k, 3) for k in range(3)] + [("consts", 0, 1), ("names", 0, 1), ("router", k, 2) if False else ("router", 0, 1)] + \
+           [("subs", k, 5) for k in range(5)] + [("corpus", k, 3) for k in range(3)]
+    if thorough:
+        jobs = [("sweep", k, 3) for k in range(3)] + [("consts", 0, 1), ("names", 0, 1)] + [("router", k, 2) for k in range(2)] + \
+               [("subs", k, 8) for k in range(8)] + [("corpus", k, 4) for k in range(4)]
+    import multiprocessing as mp
+    from concurrent.futures import ProcessPoolExecutor
+    t1 = time.time()
+    with ProcessPoolExecutor(max_workers=min(NPROC, len(jobs)), mp_context=mp.get_context("fork")) as ex:
+        results = list(ex.map(run_job, [(j, args.tier, ck.seed) for j in jobs]))
+    ses = Session(ck, None)
     timing = {}
-    for name, fam in (("sweep", fam_sweep), ("consts", fam_consts), ("names", fam_names), ("router", fam_router), ("subs", fam_subs), ("corpus", fam_corpus)):
-        t1 = time.time()
-        fam(ses, pt, rng, thorough)
-        timing[name] = round(time.time() - t1, 1)
+    for (fam, k, n), r in zip(jobs, results):
+        timing["%s[%d/%d]" % (fam, k, n)] = r["wall"]
+        ck.evaluations += r["evaluations"]
+        ck.distinct |= r["distinct"]
+        ck.violations += r["violations"]
+        for b in r["broken"]:
+            ck.model_problem(b)
+        for fid, what in r["known_seen"]:
+            ck.known(fid, what)
+        for name in ("stats", "kinds", "ops_seen", "known_hits", "uncovered"):
+            for kk, vv in r[name].items():
+                ses.bump(getattr(ses, name), kk, vv)
+        ses.violations += r["nviol"]
+        ses.accepted += r["accepted"]
+        if k == 0:
+            for sm in r["samples"]:
+                ck.sample(sm, limit=7)
+        for kk, vv in r["coverage"].items():
+            if isinstance(vv, list):
+                ck.coverage.setdefault(kk, []).extend(vv)
+            elif isinstance(vv, dict):
+                d = ck.coverage.setdefault(kk, {})
+                for a, b in vv.items():
+                    d[a] = d.get(a, 0) + b
+            else:
+                ck.coverage[kk] = vv
+    ck.coverage["families_wall_s"] = round(time.time() - t1, 1)
     ck.coverage["family_wall_s"] = timing
     ck.coverage["outcomes"] = dict(sorted(ses.stats.items()))
     ck.coverage["accepted_outputs"] = ses.accepted
@@ -452,7 +515,6 @@ def main(argv):
                          {"kind": "proof", "broken": "Props/C04.v", "log": ck.proof_log[-2500:]}, no_failing_input=True)
         else:
             ck.notes.append("proof obligation broken (see proof_failure_log); the sweep found concrete illegal outputs, reported above")
-    model.close()
     return ck.finish(
         level="proof",
         rule="every evaluation is one REAL compiler output (compileTeal / Router.compile_program) decided by the extracted, proved-sound legal_check; "
